@@ -159,7 +159,7 @@ Section WellFormed.
   Proof.
     intros Hm p m dl kids x Hp Hx. rewrite (mrr_master_img dt s Hdt Hwf) in Hm. injection Hm as <-.
     destruct (mrr_spec_cont p m dl kids x Hp Hx) as (len & G & Hcont).
-    pose proof G as (r0 & P0 & _ & Hmo & Hl & Hb & Ho & C0 & C1 & _ & _ & _ & Hn1).
+    pose proof G as (r0 & P0 & _ & Hmo & Hl & Hb & Ho & C0 & C1 & _).
     destruct (mrr_good_enc dt s Hdt x len G) as (r & b & bd & bc & Hpl & _ & Ed & Ec & Hz & Es & Hsum & Eb & Zb & Hr & _).
     rewrite Hpl in P0. injection P0 as <-.
     assert (Hcel : u32_ok (pl_celen r) = true) by (unfold u32_ok, BS in *; lia).
